@@ -184,6 +184,19 @@ def simd_histories(rng, tier, B, quick_n=260, thorough_n=6000):
                  "hash%s 0 %s" % (w, hexs(d[pre:])), "hash%s 1 %s" % (w, hexs(d[pre:])), "hash%s 2 %s" % (w, hexs(d[pre:])), "hash%s 3 %s" % (w, hexs(d[pre:]))]
         hists.append(History(hid, lines, {"len": pre + n, "oneshot": True, "nontrivial": True}))
         hid += 1
+    # checkpoint bytes after a history that wraps the pending buffer (stale bytes behind the new tail), and re-checkpoint after restore
+    for k in range(10 if tier == "quick" else 120):
+        key = G.rand_key(rng)
+        a = 1 + rng.below(31)
+        b = (32 - a) + 1 + rng.below(31)
+        c = rng.below(3) * (1 + rng.below(40))
+        d = rng.bytes(a + b + c, 1)
+        lines = ["new 0 %s %s" % (B, G.keystr(key)), "new 1 P %s" % G.keystr(key)]
+        for r in (0, 1):
+            lines += ["append %d %s" % (r, hexs(d[:a])), "append %d %s" % (r, hexs(d[a:a + b]))] + (["append %d %s" % (r, hexs(d[a + b:]))] if c else [])
+        lines += ["ckpt 0", "ckpt 1", "restorefrom 2 %s 0" % B, "ckpt 2", "restorefrom 3 %s 1" % B, "ckpt 3", "fin256 2", "fin256 3"]
+        hists.append(History(hid, lines, {"ck2": (a, b, c), "nontrivial": True}))
+        hid += 1
     for i in range(40 if tier == "quick" else 1500):   # arbitrary blobs and defaults
         blob, cnt = G.rand_blob(rng)
         d = G.rand_data(rng, rng.below(80))
@@ -217,6 +230,13 @@ def simd_oracle(h, il):
             if ds[6] != ds[7]:
                 return "SIMD 64-bit digest %s differs from PortableHash %s" % (ds[6], ds[7])
         return None
+    if "ck2" in h.meta:
+        if len(cks) == 4 and len(set(cks)) != 1:
+            return ("checkpoint bytes after appends of %d, %d, %d bytes: SIMD backend, PortableHash, SIMD restored from its own / from the "
+                    "portable checkpoint give %d different byte strings" % (h.meta["ck2"] + (len(set(cks)),)))
+        if len(ds) == 2 and ds[0] != ds[1]:
+            return "digests after restore differ: %s" % ds
+        return None
     if "count" in h.meta:
         if len(cks) == 3 and not (cks[0] == cks[1] == cks[2]):
             return "restore from arbitrary bytes: checkpoints differ / empty append changed the state"
@@ -241,6 +261,14 @@ def wasm(ctx):
     hists = simd_histories(rng, ctx.tier, "W")
     itr, problems = wasm_run(hists)
     compare(ctx, WASM_TARGET, WASM_CFG, hists, itr, problems, simd_oracle, KEEP, "WasmHash vs PortableHash")
+
+
+def simd_backends(ctx):
+    """The properties quantified over "every backend" (C05, C06, C11, C14): the histories of C03 / C04 — streaming with a cut, checkpoint
+    interchange at the cut, checkpoint bytes after a wrapped buffer, restores from arbitrary bytes, one-shot helpers on non-fresh
+    hashers — on the real NeonHash and WasmHash under Miri, next to PortableHash in the same process and against the model."""
+    neon(ctx)
+    wasm(ctx)
 
 
 def portable_targets(ctx):
